@@ -156,7 +156,7 @@ fn create_wallet_det(w: &mut World, name: &str, seed: u64) {
 	w.wallets.insert(
 		name.to_string(),
 		WalletH { name: name.to_string(), dir: wdir, inst: Some(Arc::new(grin_util::Mutex::new(wallet))), mask, masked: false,
-			password: "".into(), seed: name.to_string(), phrase },
+			password: "".into(), seed: name.to_string(), phrase, active: "default".into() },
 	);
 }
 
